@@ -1,6 +1,7 @@
 package main
 
 import (
+	"os"
 	"archive/tar"
 	"bytes"
 	"context"
@@ -120,7 +121,7 @@ func c04Layers() []layer {
 			}
 			return m, []hackpadfs.FS{root, inner}, func() {}
 		}},
-		{"os", allNSOps, func() (hackpadfs.FS, []hackpadfs.FS, func()) {
+		{"os", append(append([]string(nil), allNSOps...), osOnlyOps...), func() (hackpadfs.FS, []hackpadfs.FS, func()) {
 			fs, done := newOSWorld()
 			prepTree(fs)
 			return fs, []hackpadfs.FS{fs}, done
@@ -131,7 +132,7 @@ func c04Layers() []layer {
 			prepTree(fs)
 			return primOnly{fs}, []hackpadfs.FS{fs}, func() {}
 		}},
-		{"sub(os)", allNSOps, func() (hackpadfs.FS, []hackpadfs.FS, func()) {
+		{"sub(os)", append(append([]string(nil), allNSOps...), osOnlyOps...), func() (hackpadfs.FS, []hackpadfs.FS, func()) {
 			base, done := newOSWorld()
 			_ = hackpadfs.Mkdir(base, "base", 0o755)
 			sub, err := hackpadfs.Sub(base, "base")
@@ -217,6 +218,16 @@ func c04Layers() []layer {
 	}
 }
 
+// entry points only the os-backed FS has
+var osOnlyOps = []string{"symlink-old", "symlink-new", "lstat", "chown"}
+
+var c04Direct = map[string]func(fs hackpadfs.FS, name string) error{
+	"symlink-old": func(fs hackpadfs.FS, name string) error { return hackpadfs.Symlink(fs, name, "zz") },
+	"symlink-new": func(fs hackpadfs.FS, name string) error { return hackpadfs.Symlink(fs, "f", name) },
+	"lstat":       func(fs hackpadfs.FS, name string) error { _, err := hackpadfs.Lstat(fs, name); return err },
+	"chown":       func(fs hackpadfs.FS, name string) error { return hackpadfs.Chown(fs, name, os.Getuid(), os.Getgid()) },
+}
+
 func c04Op(kind, name string) Op {
 	switch kind {
 	case "mkdir", "mkdirall":
@@ -287,6 +298,12 @@ func runC04(r *Rng, n int, replay string) {
 					if err != nil {
 						a = Obs{Kind: "err", Err: canonErr(err)}
 					}
+				} else if fn, ok := c04Direct[kind]; ok {
+					err := fn(fs, name)
+					a = Obs{Kind: "ok"}
+					if err != nil {
+						a = Obs{Kind: "err", Err: canonErr(err)}
+					}
 				} else if kind == "chtimes-zero" {
 					// the zero time.Time: "leave unchanged" to some implementations
 					err := hackpadfs.Chtimes(fs, name, time.Time{}, time.Time{})
@@ -324,7 +341,7 @@ func runC04(r *Rng, n int, replay string) {
 					}
 				}
 				// model correspondence: the in-memory FS only
-				if li == 0 && kind != "sub" && kind != "chtimes-zero" {
+				if _, direct := c04Direct[kind]; li == 0 && kind != "sub" && kind != "chtimes-zero" && !direct {
 					prep := []Op{{Kind: "mkdir", P: "d", Perm: 0o755}, {Kind: "writefile", P: "f", Data: []byte{1, 2, 3}, Perm: 0o644}, {Kind: "writefile", P: "d/f", Data: []byte{4, 5}, Perm: 0o600}}
 					mfs := newMem()
 					w := &World{FS: mfs}
